@@ -53,6 +53,7 @@ type MockShape struct {
 	Methods    []MethodShape
 	Aliased    bool // requested as "Interface:Name"
 	DupOfFirst bool // the same interface as the first mock, requested again (under another name)
+	SameName   bool // requested as "Iface:Iface": the mock carries the interface's name
 }
 
 // Env is an abstract template.Data value.
@@ -113,6 +114,9 @@ func (e Env) String() string {
 		}
 		if m.Aliased {
 			tp = "alias:" + tp
+		}
+		if m.SameName {
+			tp = "same-name:" + tp
 		}
 		if m.DupOfFirst {
 			tp = "dup:" + tp
@@ -212,6 +216,9 @@ func BuildModel(e Env) *Model {
 		mi.MockName = mi.IfaceName + "Mock"
 		if ms.Aliased {
 			mi.MockName = tok(OpMock, i)
+			if ms.SameName {
+				mi.MockName = mi.IfaceName
+			}
 		}
 		ti := i // index used in the interface's own tokens
 		if mi.DupOfFirst {
